@@ -1,14 +1,107 @@
-(* C01 — statements only. *)
+(* C01 — mesh slicing returns exactly the part of the surface in front of the plane.
+   Only statements here; each is closed by `exact <lemma>` from proofs/P_slicing*.v.
+   Conventions: pd n o v = n . (v - o) is the offset of v from the plane (in units of |n|); the code's sign
+   convention is -1 = in front, 0 = on, 1 = behind; H0 tol n o t reads "a corner classified on (|offset| <= tol)
+   lies exactly on the plane", which is how the property text treats the merge tolerance. *)
 From Coq Require Import ZArith Reals List Bool.
 From PW Require Import Num NumR Vec NpList Result.
 From PW.model Require Import M_slicing.
-From PW.proofs Require Import P_slicing.
+From Coq Require Import Permutation.
+From PW.proofs Require Import P_slicing P_slicing_face P_slicing_cover P_slicing_mesh P_slicing_perface.
 Import ListNotations.
 Local Open Scope R_scope.
 
-Theorem C01_sign_range : forall tol d,
-  vsign ROps tol d = (-1)%Z \/ vsign ROps tol d = 0%Z \/ vsign ROps tol d = 1%Z.
-Proof. exact vsign_range. Qed.
+(* classification with the merge tolerance *)
+Theorem C01_classify : forall tol d, 0 <= tol ->
+  (vsign ROps tol d = (-1)%Z <-> tol < d) /\ (vsign ROps tol d = 0%Z <-> - tol <= d <= tol) /\
+  (vsign ROps tol d = 1%Z <-> d < - tol).
+Proof. intros tol d H. exact (conj (vsign_front tol d) (conj (vsign_on tol d H) (vsign_behind tol d H))). Qed.
 
-Definition C01_all := (C01_sign_range).
+(* the case split by signs_sum / signs_asum is the one the text prescribes, on every one of the 27 corner patterns,
+   selected or not (finite domain in the statement) *)
+Theorem C01_slice_face_cases :
+  forallb (fun s => forallb (fun m => fcase_eqb (face_case s m) (expected_case s m)) [true; false]) all_patterns = true.
+Proof. exact face_case_expected. Qed.
+(* ... and in each cut case exactly the expected corners are in front / behind (so np.where finds one column) *)
+Theorem C01_slice_face_cases_corners :
+  forallb (fun s => forallb (case_ok s) [true; false]) all_patterns = true.
+Proof. exact sign_cases. Qed.
+Theorem C01_face_signs_are_patterns : forall tol n o t, In (tri_signs ROps tol n o t) all_patterns.
+Proof. exact tri_signs_pattern. Qed.
+
+(* faces excluded by faces_to_slice, and faces wholly on or in front, come back with their three corners;
+   selected faces with no corner in front and a corner behind are dropped *)
+Theorem C01_unselected_kept : forall tol eps n o t, slice_face ROps tol eps n o false t = [t].
+Proof. exact slice_face_unselected. Qed.
+Theorem C01_on_or_in_front_kept : forall tol eps n o m t,
+  (forall k, (k < 3)%nat -> - tol <= pd n o (tget t k)) -> slice_face ROps tol eps n o m t = [t].
+Proof. exact slice_face_keep. Qed.
+Theorem C01_no_corner_in_front_dropped : forall tol eps n o t, 0 <= tol ->
+  (forall k, (k < 3)%nat -> pd n o (tget t k) <= tol) -> (exists k, (k < 3)%nat /\ pd n o (tget t k) < - tol) ->
+  slice_face ROps tol eps n o true t = [].
+Proof. exact slice_face_drop. Qed.
+
+(* soundness: every point of every output triangle lies in the input face, and (selected faces) not behind the plane *)
+Theorem C01_slice_face_sound : forall tol eps n o m t t' x, 0 <= tol -> H0 tol n o t ->
+  In t' (slice_face ROps tol eps n o m t) -> in_tri t' x ->
+  in_tri t x /\ (m = true -> 0 <= pd n o x).
+Proof. exact slice_face_sound. Qed.
+
+(* orientation: each output triangle's normal is a non-negative multiple of the input face's (no H0 needed) *)
+Theorem C01_slice_face_orient : forall tol eps n o m t t', 0 <= tol ->
+  In t' (slice_face ROps tol eps n o m t) ->
+  exists lam, 0 <= lam /\ tri_normal t' = vscale ROps lam (tri_normal t).
+Proof. exact slice_face_orient. Qed.
+
+(* the crossing point the code computes (num / denom, denominator not patched) lies on the plane and on the edge's line *)
+Theorem C01_crossing_point : forall eps n o p q, pd n o p <> pd n o q ->
+  int_point ROps eps n o p q = lerp p q (pd n o p / (pd n o p - pd n o q)) /\
+  pd n o (int_point ROps eps n o p q) = 0.
+Proof. intros eps n o p q H. exact (conj (int_point_lerp eps n o p q H) (int_point_on_plane eps n o p q H)). Qed.
+
+(* coverage: every point of the input face strictly in front of the plane lies in some output triangle (points exactly on
+   the plane are covered too unless the face is dropped: a dropped face meets the closed half-space in a corner/edge only) *)
+Theorem C01_slice_face_cover : forall tol eps n o m t x, 0 <= tol -> H0 tol n o t ->
+  in_tri t x -> 0 < pd n o x -> exists t', In t' (slice_face ROps tol eps n o m t) /\ in_tri t' x.
+Proof. exact slice_face_cover. Qed.
+
+(* area: the vector areas of the outputs add up to a fraction f in [0,1] of the input face's vector area; together with
+   soundness, orientation and coverage: the outputs tile the clipped face without overlap *)
+Theorem C01_slice_face_area : forall tol eps n o m t, 0 <= tol -> H0 tol n o t ->
+  exists f, 0 <= f <= 1 /\ vsum_normals (slice_face ROps tol eps n o m t) = vscale ROps f (tri_normal t).
+Proof. exact slice_face_area. Qed.
+
+(* without H0 (a corner strictly inside the tolerance band counted as "on"): the cut parameter along an edge from a
+   corner in front (offset a > tol) to a corner not in front (offset b <= tol) is in (0, 1 + tol/(a - tol)].
+   PARTIAL: quantifies the band only; the exact clauses above read "counts as lying on it" as H0. *)
+Theorem C01_slice_face_tolerance_partial : forall tol a b, 0 <= tol -> tol < a -> b <= tol ->
+  0 < a / (a - b) <= 1 + tol / (a - tol).
+Proof. exact cut_param_band. Qed.
+
+(* the mesh pipeline (masks, group order, appended vertex numbering, renumbering) is the per-face kernel applied to every
+   face: for all vertex lists, face lists and masks, the returned coordinate triangles paired with the returned face
+   mapping are a permutation of (i, t') for t' in slice_face of face i.  rows = vertices[faces] with the mask bit. *)
+Theorem C01_slice_mesh_is_per_face : forall tol eps vs fs n o fi r, vs <> [] ->
+  slice_faces_plane ROps tol eps vs fs n o fi = Ok r ->
+  exists mask rows,
+    mask_of (length fs) fi = Ok mask /\ length rows = length fs /\
+    (forall i d, nth_error rows i = Some d ->
+       nth_error fs i = Some (fd_f d) /\ nth_error mask i = Some (fd_m d) /\ lookup3 vs (fd_f d) = Some (fd_t d)) /\
+    Permutation
+      (zip (mo_map r) (mesh_tris (mo_v r) (mo_f r)))
+      (flat_map (fun x => map (fun t' => (fst x, Some t')) (slice_face ROps tol eps n o (fd_m (snd x)) (fd_t (snd x))))
+                (indexed rows)).
+Proof. exact slice_mesh_is_per_face. Qed.
+
+(* non-vacuity: a face with one corner in front, one on, one behind satisfies H0 and is really cut *)
+Example C01_H0_inhabited :
+  H0 (1/100000000) (V3 0 0 1) (V3 0 0 0) (V3 0 0 1, V3 1 0 0, V3 0 1 (-1)).
+Proof.
+  intros k Hk. destruct k as [|[|[|k]]]; try (exfalso; Lia.lia); unfold pd, plane_dot; cbn [tget fst snd]; P_vec.vunf; Lra.lra.
+Qed.
+
+Definition C01_all := (C01_classify, C01_slice_face_cases, C01_slice_face_cases_corners, C01_face_signs_are_patterns,
+  C01_unselected_kept, C01_on_or_in_front_kept, C01_no_corner_in_front_dropped,
+  C01_slice_face_sound, C01_slice_face_orient, C01_crossing_point, C01_slice_face_cover, C01_slice_face_area,
+  C01_slice_face_tolerance_partial, C01_slice_mesh_is_per_face).
 Print Assumptions C01_all.
